@@ -54,6 +54,15 @@ def gen_contribs(rng, n, pathvars, rich):
     if "XP" in pathvars and rng.random() < 0.5:
         acts.append({"a": "prepend", "var": "XP", "own": True, "val": rng.choice(["/x", "", "/share/x"]),
                      "append": rng.random() < 0.5})
+    if rng.random() < 0.3:
+        # one envPrepend / envAppend whose value holds several delimiter-separated pieces
+        var = rng.choice(sorted(pathvars))
+        more = [{"own": True, "val": "/scripts"}]
+        if rng.random() < 0.3:
+            more.append({"own": True, "val": "/m2"})
+        if rich and rng.random() < 0.25:
+            more.append({"own": False, "val": "/opt/%s/multi" % n})
+        acts.append({"a": "prepend", "var": var, "own": True, "val": "/mbin", "append": rng.random() < 0.5, "more": more})
     if rng.random() < 0.5:
         acts.append({"a": "set", "var": n.upper() + "_X", "own": True, "val": rng.choice(["/x", "", "/etc/x.cfg"])})
     if rich and rng.random() < 0.15:
@@ -88,7 +97,9 @@ def gen_graph(rng, cyc=False, rich=True, nmin=3, nmax=7):
                 p = 0.45 if fwd_edge else (0.12 if cyc else 0.0)
                 if rng.random() < p:
                     dep = {"a": "dep", "name": m, "opt": rng.random() < 0.34, "just": rng.random() < 0.25,
-                           "spec": gen_spec(rng, pool)}
+                           "spec": gen_spec(rng, pool), "tags": []}
+                    if rich and rng.random() < 0.15:      # the line's own -t tag(s): setupRequired(m -t beta …)
+                        dep["tags"] = rng.choice([["beta"], ["beta"], ["current"], ["beta", "current"]])
                     acts.insert(rng.randint(0, len(acts)), dep)
             if rich and rng.random() < 0.04:
                 acts.insert(rng.randint(0, len(acts)), {"a": "dep", "name": "zz", "opt": rng.random() < 0.6, "just": False,
@@ -109,7 +120,7 @@ def gen_graph(rng, cyc=False, rich=True, nmin=3, nmax=7):
             decls.append({"name": n, "ver": v, "sub": sub, "table": table})
         if rng.random() < 0.85:
             cur[n] = rng.choice(vs) if (not rich or rng.random() > 0.03) else "9"      # rarely: a tag on an undeclared version
-        if rng.random() < 0.3:
+        if rng.random() < 0.4:
             beta[n] = rng.choice(vs)
     return {"names": names, "pool": pool, "pathvars": pathvars, "space_root": space_root,
             "decls": decls, "tags": {"current": cur, "beta": beta}, "cyc": cyc}
@@ -221,6 +232,11 @@ def gen_case(rng, cyc=None, nreq=None, plain=False):
 # graph helpers (used by the installer, the model-request builder and the oracles)
 # ================================================================================================
 
+def pvals(a):
+    """[(own?, text)] — the pieces of the value of an envPrepend / envAppend action, in order"""
+    return [(a["own"], a["val"])] + [(m["own"], m["val"]) for m in a.get("more", [])]
+
+
 def flat_table(table):
     """[(guard, act)] in table order"""
     out = []
@@ -252,8 +268,10 @@ def spec_text(sp):
 
 def act_text(a, pathvars):
     if a["a"] == "prepend":
-        val = ("${PRODUCT_DIR}" if a["own"] else "") + a["val"]
         dl = pathvars.get(a["var"], ":")
+        val = dl.join(("${PRODUCT_DIR}" if o else "") + v for o, v in pvals(a))
+        if "," in val or " " in val:
+            val = '"%s"' % val
         third = "" if dl == ":" else ', "%s"' % dl
         return "%s(%s, %s%s)" % ("envAppend" if a["append"] else "envPrepend", a["var"], val, third)
     if a["a"] == "set":
@@ -261,7 +279,8 @@ def act_text(a, pathvars):
     if a["a"] == "alias":
         return "addAlias(%s, %s)" % (a["key"], a["val"])
     if a["a"] == "dep":
-        bits = [a["name"]] + (["-j"] if a["just"] else []) + ([spec_text(a["spec"])] if spec_text(a["spec"]) else [])
+        bits = [a["name"]] + (["-j"] if a["just"] else []) + [x for t in a.get("tags", []) for x in ("-t", t)] + \
+            ([spec_text(a["spec"])] if spec_text(a["spec"]) else [])
         return "%s(%s)" % ("setupOptional" if a["opt"] else "setupRequired", " ".join(bits))
     raise ValueError(a)
 
@@ -345,6 +364,10 @@ class G:
 
     def value(self, n, v, a):
         return (self.dir(n, v) if a["own"] else "") + a["val"]
+
+    def values(self, n, v, a):
+        """[(own?, string)] for every piece of a path action's value"""
+        return [(o, (self.dir(n, v) if o else "") + t) for o, t in pvals(a)]
 
 
 # ================================================================================================
@@ -604,7 +627,11 @@ def model_db(G_):
         for gd, a in G_.flat[(n, v)]:
             if a["a"] == "dep":
                 ver, vexpr = spec_model(a["spec"])
-                tb.append({"g": gd, "a": "dep", "name": a["name"], "opt": a["opt"], "just": a["just"], "ver": ver, "vexpr": vexpr})
+                tb.append({"g": gd, "a": "dep", "name": a["name"], "opt": a["opt"], "just": a["just"], "ver": ver,
+                           "vexpr": vexpr, "tags": list(a.get("tags", []))})
+            elif a["a"] == "prepend":
+                tb.append({"g": gd, "a": "prepend", "var": a["var"], "append": a["append"],
+                           "vals": [{"own": o, "val": t} for o, t in pvals(a)]})
             else:
                 x = dict(a)
                 x["g"] = gd
@@ -685,9 +712,10 @@ def missing_contribs(G_, env, exact):
         if (n, v) not in G_.decl:
             continue
         for a in G_.acts(n, v, exact):
-            if a["a"] == "prepend" and a["own"]:
-                if G_.value(n, v, a) not in env["paths"].get(a["var"], []):
-                    out.append((n, v, "%s lacks %s" % (a["var"], G_.value(n, v, a))))
+            if a["a"] == "prepend":
+                for o, x in G_.values(n, v, a):
+                    if o and x not in env["paths"].get(a["var"], []):
+                        out.append((n, v, "%s lacks %s" % (a["var"], x)))
             elif a["a"] == "set" and a["own"] and a["val"] != "":
                 if env["vars"].get(a["var"]) != G_.value(n, v, a):
                     out.append((n, v, "%s != %s" % (a["var"], G_.value(n, v, a))))
@@ -719,11 +747,15 @@ def vmatch(v, e):
     return any(ops[op](vkey(v), vkey(w)) for op, w in e)
 
 
-def designated(G_, name, ver, vexpr, tags=("current",)):
+def designated(G_, name, ver, vexpr, tags=("current",), line_tags=()):
     """The version the default resolution order designates for a request taken on its own: an expression
     -> the highest declared version satisfying it; an explicit version -> that version if declared, else the
     highest one satisfying an accompanying [expr]; no version -> the tagged version.  None = cannot be resolved."""
     vs = G_.versions(name)
+    for t in line_tags:            # the line's own -t tags stand in front of the whole VRO
+        v = G_.g["tags"].get(t, {}).get(name)
+        if v in vs:
+            return v
     if ver is not None and "e" in ver:
         vexpr = ver["e"]
         c = [v for v in vs if vmatch(v, vexpr)]
@@ -750,8 +782,8 @@ def closure(G_, name, ver, exact):
     asked = {}                 # name -> versions requested along the traversal (failed attempts included)
     conflict = [False]
 
-    def visit(n, vr, vx, norec, acc):
-        v = designated(G_, n, vr, vx)
+    def visit(n, vr, vx, norec, acc, ltags=()):
+        v = designated(G_, n, vr, vx, line_tags=ltags)
         if v is None:
             return False
         asked.setdefault(n, set()).add(v)
@@ -767,7 +799,7 @@ def closure(G_, name, ver, exact):
                 continue
             vr2, vx2 = spec_model(a["spec"])
             sub = set(acc)
-            if visit(a["name"], vr2, vx2, a["just"], sub):
+            if visit(a["name"], vr2, vx2, a["just"], sub, tuple(a.get("tags", []))):
                 acc |= sub
             elif not a["opt"]:
                 return False
@@ -862,7 +894,7 @@ def check_request(G_, req, r, stats=None):
                 if m != name and e1["recs"].get(m) != v:
                     cls = None
                     oldv = e0["recs"].get(name)
-                    if oldv is not None and oldv != e1["recs"].get(name) and m in G_.reach_from(name, oldv):
+                    if oldv is not None and m in G_.reach_from(name, oldv):
                         cls = "D21"
                     yield ("C04", "keep", cls, "%s %s -> %r (request %s, was %r, now %r)" % (m, v, e1["recs"].get(m), name, oldv, e1["recs"].get(name)))
         # --- C04 (iii) depth -----------------------------------------------------------------------
@@ -878,7 +910,7 @@ def check_request(G_, req, r, stats=None):
     for m in G_.names:
         if m not in R and changed_for(G_, m, e0, e1):
             yield ("C04", "frame", None, "%s is not reachable from %s but changed" % (m, req["name"]))
-    lits = {G_.value(n, v, a) for (n, v) in G_.decl for _, a in G_.flat[(n, v)] if a["a"] == "prepend" and not a["own"]}
+    lits = {x for (n, v) in G_.decl for _, a in G_.flat[(n, v)] if a["a"] == "prepend" for o, x in G_.values(n, v, a) if not o}
     for var in G_.pathvars:
         f0 = [s for s in e0["paths"].get(var, []) if G_.owner(s) is None]
         f1 = [s for s in e1["paths"].get(var, []) if G_.owner(s) is None]
@@ -1020,7 +1052,7 @@ def contributed(G_, recs, exact):
                 if a["a"] == "set":
                     setv.add(a["var"])
                 elif a["a"] == "prepend":
-                    el.setdefault(a["var"], set()).add(G_.value(n, v, a))
+                    el.setdefault(a["var"], set()).update(x for _, x in G_.values(n, v, a))
     return setv, el
 
 
@@ -1034,9 +1066,11 @@ def conflict_with_just(G_, name, exact):
                 if a["a"] == "dep":
                     vr, vx = spec_model(a["spec"])
                     w = want.setdefault(a["name"], [set(), False])
-                    w[0].add(designated(G_, a["name"], vr, vx))
+                    w[0].add(designated(G_, a["name"], vr, vx, line_tags=tuple(a.get("tags", []))))
                     w[1] = w[1] or a["just"]
-    return {x for x, (vs, j) in want.items() if j and len(vs - {None}) >= 2}
+    # "two different answers" includes "cannot be resolved": a -j line that fails at setup time still unwinds
+    # whatever version is set up when the table is replayed for unsetup
+    return {x for x, (vs, j) in want.items() if j and len(vs) >= 2}
 
 
 def roundtrip_oracle(G_, case, raw, impl, model, stats):
